@@ -71,9 +71,14 @@ CHECKS = {
   "Process.tla explores every iteration order of the registry scans over the LIVE registry content (dumped from the interpreter) and checks confluence; DetermTrace validates that 4 runs in fresh interpreters of one process (other interpreters declaring structs/records/packages in between) and 3-6 fresh processes of each program (fixed probes incl. a Go type registered under two names, the surface-language catalogue, the deterministic script corpus, generated programs) are one behaviour (printed value, error text, captured stdout).",
   "addresses/goroutine ids/stack traces masked; random, time, pointer, file, channel, gensym-name programs excluded; runs sample map seeds, the model enumerates the orders",
   "TLA+ spec (Process, DetermTrace); TLC exploration of map-walk orders over live constants + TLC trace validation of repeated runs"),
+ "C06": ("Pratt", "translation_validation",
+  "Every recorded infix block is judged by a declarative TLA+ definition of the documented precedence table on six counts: the tokens the reader delivered, the tree of (infixExpand {..}) including nested blocks, the infix-free prefix program (checked to be the predicted form), and the value, the (tr x) effects and the final state of both. Blocks are exhaustive for <=3 (thorough <=4) operators over every operator in two spacings, plus statement lists, if/else, for headers, indexing/slicing/fields and seeded random long programs. TLC separately checks that the definition, ValidTree (with uniqueness) and a transcription of the pratt.go algorithm agree on every token list up to the bound, and refutes the pinned deviations.",
+  "and/or taken as one right-assoc level; range-for, prefix *, [-literals at statement start, mid-expression ++ and asymmetric spacing around + - are outside the generated domain; errors compared as errors only; verdicts come only from recorded executions judged by the declarative definition",
+  "TLA+ spec (Pratt); TLC agreement/uniqueness audit + TLC trace validation of recorded translations and evaluations"),
 }
 
 ENGINES = [
+ {"name": "Pratt", "path": "spec/Pratt.tla spec/MCPratt.tla spec/MCPrattForms.tla spec/PrattTrace.tla", "serves_properties": ["C06"], "kind_free_text": "TLA+ declarative grammar + algorithm model + trace specification, TLC"},
  {"name": "CrashTrace", "path": "spec/CrashTrace.tla", "serves_properties": ["C01"], "kind_free_text": "TLA+ trace specification of the entry-point outcome machine, TLC"},
  {"name": "Codec", "path": "spec/Decimal.tla spec/Codec.tla spec/CodecTrace.tla spec/MCCodec.tla", "serves_properties": ["C11"], "kind_free_text": "TLA+ functional spec + audit + trace specification, TLC"},
  {"name": "Codec+NumLit", "path": "spec/Codec.tla spec/NumLit.tla spec/PrintReadTrace.tla spec/MCNumLit.tla", "serves_properties": ["C12"], "kind_free_text": "TLA+ functional spec + audit + trace specification, TLC"},
